@@ -10,6 +10,7 @@ set_option linter.unusedSimpArgs false
 namespace Mqtt.Proofs.Broker
 open Mqtt.Iface.Broker Mqtt.Model.Broker
 open Mqtt.Model.Topics (MemTopics RMsg SNode RNode levels validQos Level)
+open Mqtt.Proofs.Topics (entryLevels)
 open Mqtt.Proofs.Topics (WF RWF abs absR good Entry REntry rwalk)
 open Mqtt.Properties.C06
 open Mqtt.Spec.Match (split validName validFilter matchLevels topicMatches)
@@ -20,6 +21,11 @@ def conv (rq : Nat) (r : RMsg) : Msg :=
 
 /-- what `Retained(filter)` returns (nothing on error) -/
 def retainedOf (mt : MemTopics) (t : Bytes) : List RMsg := (mt.retained t).getD []
+
+/-- `Retained` depends on the retained trie only -/
+theorem retained_congr (ts mt : MemTopics) (t : Bytes) (h : ts.rroot = mt.rroot) :
+    ts.retained t = mt.retained t := by
+  unfold MemTopics.retained; rw [h]
 
 /-- the PUBLISH a subscriber granted at `g` gets for the stored message `r`:
 stored topic, payload, DUP bit and RETAIN flag, QoS min(stored, granted), the
@@ -92,8 +98,8 @@ theorem subscribeLoop_rms (c : Nat) (topics : List (Bytes × Nat)) :
       simp only [List.flatMap_cons, ha.1, ↓reduceIte, hret, List.append_assoc]
       congr 1
       congr 1
-      simp only [retainedOf, MemTopics.retained, hr, ha.2]
-      cases b.topics.rroot.rmatch t with
+      simp only [retainedOf, retained_congr ts b.topics t hr, ha.2]
+      cases b.topics.retained t with
       | none => rfl
       | some l => rfl
 
@@ -135,12 +141,12 @@ theorem conv_wire (rq : Nat) (r : RMsg) :
 
 /-! ### what `Retained(filter)` returns -/
 
-theorem retained_char (mt : MemTopics) (t : Bytes) (hwf : RWF mt.rroot) (hl : (levels t).2 = true) :
+theorem retained_char (mt : MemTopics) (t : Bytes) (hwf : RWF mt.rroot) (hl : (entryLevels t).2 = true) :
     ∃ l, mt.retained t = some l ∧
-      l.Perm ((absR mt.rroot).filterMap (fun e => if rwalk (levels t).1 e.1 then some e.2 else none)) := by
-  obtain ⟨r, hr, hp⟩ := C06_rmatch_char mt.rroot (levels t).1 hwf
+      l.Perm ((absR mt.rroot).filterMap (fun e => if rwalk (entryLevels t).1 e.1 then some e.2 else none)) := by
+  obtain ⟨r, hr, hp⟩ := C06_rmatch_char mt.rroot (entryLevels t).1 hwf
   refine ⟨r, ?_, hp⟩
-  simp only [MemTopics.retained, RNode.rmatch]
+  rw [Mqtt.Proofs.Topics.retained_entry]
   rw [← hl] at hr
   exact hr
 
@@ -152,13 +158,13 @@ theorem filterMap_eq_filter_map (es : List REntry) (f : REntry → Bool) :
     simp only [List.filterMap_cons, List.filter_cons]
     cases f e <;> simp [ih]
 
-/-- for a valid filter without empty and '$'-led levels: the stored messages
+/-- for a valid filter without empty levels, not beginning with '$': the stored messages
 whose path matches the filter under section 4.7 -/
 theorem retained_char_good (mt : MemTopics) (t : Bytes) (hwf : RWF mt.rroot)
     (hg : good t = true) (hv : validFilter t = true) :
     ∃ l, mt.retained t = some l ∧
       l.Perm (((absR mt.rroot).filter (fun e => matchLevels (split t) e.1)).map (·.2)) := by
-  obtain ⟨e1, e2⟩ := Mqtt.Proofs.Topics.levels_valid t hg hv
+  obtain ⟨e1, e2⟩ := Mqtt.Proofs.Topics.entryLevels_valid t hg hv
   obtain ⟨l, h1, h2⟩ := retained_char mt t hwf e2
   refine ⟨l, h1, ?_⟩
   rw [e1, filterMap_eq_filter_map] at h2
@@ -169,7 +175,7 @@ theorem retained_char_good (mt : MemTopics) (t : Bytes) (hwf : RWF mt.rroot)
   rw [this] at h2
   exact h2
 
-theorem retainedOf_mem (mt : MemTopics) (t : Bytes) (hwf : RWF mt.rroot) (hl : (levels t).2 = true) (r : RMsg)
+theorem retainedOf_mem (mt : MemTopics) (t : Bytes) (hwf : RWF mt.rroot) (hl : (entryLevels t).2 = true) (r : RMsg)
     (hr : r ∈ retainedOf mt t) : ∃ e ∈ absR mt.rroot, e.2 = r := by
   unfold retainedOf at hr
   obtain ⟨l, h1, h2⟩ := retained_char mt t hwf hl
@@ -183,7 +189,7 @@ theorem retainedOf_mem (mt : MemTopics) (t : Bytes) (hwf : RWF mt.rroot) (hl : (
 
 /-! ### the whole SUBSCRIBE step's output -/
 
-theorem accepts_levels (t : Bytes) (q : Nat) (h : accepts t q = true) : (levels t).2 = true := by
+theorem accepts_levels (t : Bytes) (q : Nat) (h : accepts t q = true) : (entryLevels t).2 = true := by
   unfold accepts at h
   simp only [Bool.and_eq_true] at h
   exact h.2
@@ -267,8 +273,8 @@ theorem srvSub_char (b : B) (cb : Nat) (f : Bytes) (q : Nat) :
       | false => rw [h] at hs; simp at hs
       | true => rw [h] at hs; simp at hs; exact ⟨rfl, hs⟩
     simp only [ha.1, ↓reduceIte, and_true]
-    simp only [retainedOf, MemTopics.retained, hr, ha.2]
-    cases b.topics.rroot.rmatch f with
+    simp only [retainedOf, retained_congr ts b.topics f hr, ha.2]
+    cases b.topics.retained f with
     | none => rfl
     | some l =>
       simp only [List.map_map, Option.getD_some]
@@ -332,7 +338,7 @@ theorem srvSub_held (b : B) (hinv : Inv b) (cb : Nat) (f : Bytes) (q : Nat) (hg 
     · have hq' : ¬ q > 2 := by omega
       simp only [hv, hq, decide_true, Bool.and_self, ↓reduceIte] at hp
       simp only [Bool.not_true, hq', decide_false, Bool.or_self, Bool.false_eq_true, ↓reduceIte]
-      rw [(Mqtt.Proofs.Topics.levels_valid f hg hv).1] at hp
+      rw [(Mqtt.Proofs.Topics.entryLevels_valid f hg hv).1] at hp
       refine ⟨(hp.trans (addEntry_perm _ _ _ _ _ hh.perm)).trans ?_, ?_⟩
       · rw [addEntry_held]; exact List.Perm.refl _
       · intro h hm
@@ -354,13 +360,13 @@ theorem srvUnsub_held (b : B) (hinv : Inv b) (cb : Nat) (f : Bytes) (hg : good f
   refine hp.trans ?_
   cases hv : validFilter f with
   | true =>
-    obtain ⟨e1, e2⟩ := Mqtt.Proofs.Topics.levels_valid f hg hv
+    obtain ⟨e1, e2⟩ := Mqtt.Proofs.Topics.entryLevels_valid f hg hv
     rw [e1, e2]
     simp only [↓reduceIte]
     rw [← delEntry_held]
     exact delEntry_perm _ _ _ _ hh.perm
   | false =>
-    rw [Mqtt.Proofs.Topics.levels_invalid f hg hv]
+    rw [Mqtt.Proofs.Topics.entryLevels_invalid f hg hv]
     simp only [Bool.false_eq_true, ↓reduceIte]
     have : held.filter (fun h => !(h.owner == cb && h.filter == f)) = held := by
       rw [List.filter_eq_self]
@@ -450,6 +456,6 @@ theorem step_rroot (b : B) (hinv : Inv b) (e : Ev) (he : carriesNoMessage e = tr
   | srvSub cb f q =>
     simp only [step, (srvSub_char b cb f q).2]
     exact subscribe_rroot _ _ _ _ _
-  | srvUnsub cb f => rfl
+  | srvUnsub cb f => exact unsubscribe_rroot b.topics f (some cb)
 
 end Mqtt.Proofs.Broker
